@@ -29,7 +29,7 @@ ID = "C08"
 LEVEL = "exploration"
 RULE = ("generated histories of 2-14 operations: request(kind) for every request kind with a defined reply entity (ping, last seen, "
         "picture get, statuses get, status set, privacy get, group create/leave/info/list/participants/add/remove/subject/promote/"
-        "demote, contact sync, media upload) issued through YowInterfaceLayer._sendIq with recording callbacks (the media upload also through "
+        "demote, contact sync, media upload) issued through YowInterfaceLayer._sendIq with recording callbacks (both, only the success, only the error callback or none registered) (the media upload also through "
         "the interface layer's own _sendMediaMessage with a result naming an existing copy or an error reply, each delivered twice); reply(i, result|error) "
         "to any issued request in any order with a result stanza of the kind's catalogued shape (in about a fifth of the requests the reply "
         "is processed while the sender is still inside the send call, as a reader thread can do); replay(i); reply with an unknown id; "
